@@ -133,7 +133,7 @@ def cases(seed: int) -> list[dict]:
     return out
 
 
-def translated_vs_python(run: lib.Run, tr: dict) -> tuple[bool, str]:
+def translated_vs_python(run: lib.Run, tr: dict, sink: list) -> tuple[bool, str]:
     """Compared per case: the five fields afterwards, the collaborator calls in order (with the policy object handed to set_policy), the
     returned value or the raised class, and that the real method read the clock / the PRNG no more often than the translation has
     parameters for.  Validates the translator and Model/PyReloader.lean — what the obligation C10_translated trusts."""
@@ -220,7 +220,7 @@ def translated_vs_python(run: lib.Run, tr: dict) -> tuple[bool, str]:
         else:
             bad += 1
             if bad == 1:
-                run.disagreements.append({"part": "translated source vs python", "call": c,
+                sink.append({"part": "translated source vs python", "call": c,
                                           "impl": {"python": json.loads(json.dumps(want, default=repr))}, "model": got,
                                           "what": "the translated HotReloader method (Generated.Src.reloader_*) and the real method differ in fields, "
                                                   "collaborator calls or result"})
